@@ -200,6 +200,27 @@ class DependencyGraph:
             if not self.edges[waiter]:
                 del self.edges[waiter]
 
+    def reassign_resource(self, resource: str, owner: Optional[str]) -> None:
+        """
+        Point every wait on a resource at its current owner.
+
+        The owner itself no longer waits for it; with no owner
+        (resource released) nobody does.
+        """
+        for waiter in list(self.edges.keys()):
+            deps = []
+            for blocking, res in self.edges[waiter]:
+                if res == resource:
+                    if owner is None or waiter == owner:
+                        continue
+                    blocking = owner
+                if (blocking, res) not in deps:
+                    deps.append((blocking, res))
+            if deps:
+                self.edges[waiter] = deps
+            else:
+                del self.edges[waiter]
+
     def detect_cycle(self) -> Optional[DeadlockInfo]:
         """
         Detect if there's a cycle (deadlock).
